@@ -38,6 +38,7 @@ def witnesses(stats):
     others = z3.Union(*[L[v] for v in L if v not in ("Identifier", "Comment", "Whitespace", "String")])
     for v in all_models([z3.InRe(x, L["Identifier"]), z3.Not(z3.InRe(x, others)), z3.Or([x == z3.StringVal(k) for k in T.LUA_RESERVED])], 30):
         out.append(("identifier-is-lua-reserved-word", "ident", v))
+        out.append(("external-is-lua-reserved-word", "extern", v))
     # a few ordinary identifiers as control (vacuity: these must load)
     for v in all_models([z3.InRe(x, L["Identifier"]), z3.Not(z3.InRe(x, others)), z3.Length(x) == 2, z3.And([x != z3.StringVal(k) for k in T.LUA_RESERVED])], 2):
         out.append(("identifier-ordinary", "ident", v))
@@ -89,6 +90,8 @@ def witnesses(stats):
 def program_for(kind, spelling):
     if kind == "ident":
         return ("B :: blob {\n    %s: int,\n}\nstart :: fn do\n    b := B { %s: 1 }\n    b.%s = b.%s + 1\n    %s := 3\n    print(b.%s + %s)\nend\n" % ((spelling,) * 7))
+    if kind == "extern":      # an external is the Lua global of that name, whatever the name is
+        return "%s: fn int -> int : external\nstart :: fn do\n    print(%s(1))\n    g :: %s\n    print(g(2))\nend\n" % ((spelling,) * 3)
     if kind == "string":
         return 'start :: fn do\n    s := "%s"\n    print(s)\n    print(s + "x")\nend\n' % spelling
     return "start :: fn do\n    v := %s\n    print(v)\n    w := -%s\n    print(w)\n    print(1 - -%s)\nend\n" % (spelling, spelling, spelling)
